@@ -176,21 +176,14 @@ impl<'v> StarlarkValue<'v> for Range {
         heap: Heap<'v>,
     ) -> crate::Result<Value<'v>> {
         let (start, stop, step) = convert_slice_indices(self.length()?, start, stop, stride)?;
+        // `index * step` need not fit `i32` even when the new bound does
+        // (`range(-2147483648, 0, 2147483647)[1:]`), so compute the bounds in `i64`.
         return Ok(heap.alloc(Range {
-            start: self
-                .start
-                .checked_add(
-                    start
-                        .checked_mul(self.step.get())
-                        .ok_or(ValueError::IntegerOverflow)?,
-                )
+            start: i32::try_from(self.start as i64 + start as i64 * self.step.get() as i64)
+                .ok()
                 .ok_or(ValueError::IntegerOverflow)?,
-            stop: self
-                .start
-                .checked_add(
-                    stop.checked_mul(self.step.get())
-                        .ok_or(ValueError::IntegerOverflow)?,
-                )
+            stop: i32::try_from(self.start as i64 + stop as i64 * self.step.get() as i64)
+                .ok()
                 .ok_or(ValueError::IntegerOverflow)?,
             step: NonZeroI32::new(
                 step.checked_mul(self.step.get())
